@@ -283,3 +283,53 @@ func FamEarlyCancel(seed int64, variant int) SysRecord {
 	rec.Events = w.Events()
 	return rec
 }
+
+// FamEnumPanic — a handler enumerates the remotes of its registry and panics inside the callback. The panic is
+// contained (it ends that link with an error); afterwards the link is announced as disconnected, the
+// enumeration still works and is empty.
+func FamEnumPanic(seed int64) SysRecord {
+	c := jsonRawCodec()
+	rec := SysRecord{Family: "earlycancel", Config: c.Name + " a handler panics inside a ForRemotes callback", Seed: seed}
+	p, err := newPair(c, seed%2 == 1, -1, seed)
+	if err != nil {
+		rec.Notes = append(rec.Notes, err.Error())
+		return rec
+	}
+	ctx, cancel := context.WithTimeout(context.Background(), 5*time.Second)
+	defer cancel()
+	p.ra.EnumPanic(ctx, 7800) // B's handler panics: B's link ends
+	p.l.CancelA()
+	p.l.CancelB()
+	p.l.CloseTransport(io.EOF)
+	for _, ch := range []chan error{p.l.ErrA, p.l.ErrB} {
+		select {
+		case <-ch:
+		case <-time.After(3 * time.Second):
+			rec.Notes = append(rec.Notes, "LINK-DID-NOT-RETURN")
+		}
+	}
+	enumDone := make(chan int, 1)
+	go func() { enumDone <- len(p.b.Remotes()) }()
+	select {
+	case n := <-enumDone:
+		_ = n
+	case <-time.After(2 * time.Second):
+		rec.Notes = append(rec.Notes, "ENUM-PANIC after a handler panicked inside a ForRemotes callback, ForRemotes of that registry blocks forever (the registry is still locked)")
+		rec.Events = p.w.Events()
+		return rec
+	}
+	settled := waitUntil(func() bool {
+		n := map[string]int{}
+		for _, e := range p.w.Events() {
+			if e.Kind == "hook" && e.Node == "B" {
+				n[e.Method]++
+			}
+		}
+		return n["connect"] == n["disconnect"] && n["link-connect"] == n["link-disconnect"] && len(p.b.Remotes()) == 0
+	}, 3*time.Second)
+	if !settled {
+		rec.Notes = append(rec.Notes, "ENUM-PANIC after a handler panicked inside a ForRemotes callback and the link ended, the disconnect notifications are missing or the remote is still enumerated")
+	}
+	rec.Events = p.w.Events()
+	return rec
+}
